@@ -232,39 +232,172 @@ def index_conversion(fn):
     raise KeyError("collect_cython call")
 
 
-def row_new_guard(tree):
-    """`Row.__new__`: which dictionaries reach `extract_dict_columns` -- (the guard admits subclasses of dict,
-    a subclass is copied into an exact dict before the call (the helper takes exact dictionaries only))."""
+PINNED_ROW_GUARD = "true"
+PINNED_ROW_PREPARE = "  let data := if (!data.exact) then (PyDict.copy data) else data\n  data"
+
+_DICT_TYPE_IS = ("type(data) is dict", "type(data) == dict", "data.__class__ is dict", "dict is type(data)")
+_DICT_TYPE_ISNOT = ("type(data) is not dict", "type(data) != dict", "data.__class__ is not dict")
+
+
+def _key_test(t, kvar):
+    """A test on one key of the dictionary -> Lean Bool over `key : PyKey`."""
+    text = ast.unparse(t)
+    if text in ("type(%s) is str" % kvar, "type(%s) == str" % kvar, "%s.__class__ is str" % kvar, "str is type(%s)" % kvar):
+        return "key.exact"
+    if text in ("type(%s) is not str" % kvar, "type(%s) != str" % kvar, "%s.__class__ is not str" % kvar):
+        return "(!key.exact)"
+    if text == "isinstance(%s, str)" % kvar:
+        return "key.isStr"
+    if isinstance(t, ast.UnaryOp) and isinstance(t.op, ast.Not):
+        return "(!%s)" % _key_test(t.operand, kvar)
+    if isinstance(t, ast.BoolOp):
+        return "(" + (" && " if isinstance(t.op, ast.And) else " || ").join(_key_test(v, kvar) for v in t.values) + ")"
+    raise KeyError("test on a key of an unknown shape: " + text[:50])
+
+
+def _key_expr(e, kvar):
+    """The key expression of a dictionary comprehension -> Lean `PyKey` over `key`."""
+    if isinstance(e, ast.Name) and e.id == kvar:
+        return "key"
+    if isinstance(e, ast.Call) and isinstance(e.func, ast.Name) and e.func.id == "str" and len(e.args) == 1 and not e.keywords \
+            and isinstance(e.args[0], ast.Name) and e.args[0].id == kvar:
+        return "(pyStr key)"
+    if isinstance(e, ast.IfExp):
+        return "(if %s then %s else %s)" % (_key_test(e.test, kvar), _key_expr(e.body, kvar), _key_expr(e.orelse, kvar))
+    raise KeyError("key expression of an unknown shape: " + ast.unparse(e)[:50])
+
+
+def _dict_expr(e):
+    """An expression that builds the dictionary handed on -> Lean `PyDict α` over `data`."""
+    if isinstance(e, ast.Name) and e.id == "data":
+        return "data"
+    if isinstance(e, ast.Call) and isinstance(e.func, ast.Name) and e.func.id == "dict" and len(e.args) == 1 and not e.keywords:
+        return "(PyDict.copy %s)" % _dict_expr(e.args[0])
+    if isinstance(e, ast.Call) and isinstance(e.func, ast.Attribute) and e.func.attr == "copy" and not e.args and not e.keywords:
+        return "(PyDict.copy %s)" % _dict_expr(e.func.value)
+    if isinstance(e, ast.Dict) and len(e.keys) == 1 and e.keys[0] is None:
+        return "(PyDict.copy %s)" % _dict_expr(e.values[0])
+    if isinstance(e, ast.DictComp) and len(e.generators) == 1 and not e.generators[0].ifs and not e.generators[0].is_async:
+        g = e.generators[0]
+        it, tg = g.iter, g.target
+        if isinstance(it, ast.Call) and isinstance(it.func, ast.Attribute) and it.func.attr == "items" and not it.args and not it.keywords \
+                and isinstance(tg, ast.Tuple) and len(tg.elts) == 2 and all(isinstance(x, ast.Name) for x in tg.elts) \
+                and tg.elts[0].id != tg.elts[1].id:
+            kvar, vvar = tg.elts[0].id, tg.elts[1].id
+            if not (isinstance(e.value, ast.Name) and e.value.id == vvar):
+                raise KeyError("the comprehension changes the values: " + ast.unparse(e.value)[:40])
+            if _key_expr(e.key, kvar) == "key":
+                return "(PyDict.copy %s)" % _dict_expr(it.func.value)   # the same keys with the same values: a copy
+            return "(PyDict.comp (fun key value => %s) (fun key value => value) %s)" % (_key_expr(e.key, kvar), _dict_expr(it.func.value))
+        if isinstance(tg, ast.Name) and isinstance(it, ast.Name) and it.id == "data" \
+                and ast.unparse(e.value) == "data[%s]" % tg.id:
+            if _key_expr(e.key, tg.id) == "key":
+                return "(PyDict.copy data)"
+            return "(PyDict.comp (fun key value => %s) (fun key value => value) data)" % _key_expr(e.key, tg.id)
+    raise KeyError("dictionary expression of an unknown shape: " + ast.unparse(e)[:50])
+
+
+def _dict_test(t):
+    """A test on the dictionary -> Lean Bool over `data`."""
+    text = ast.unparse(t)
+    if text in _DICT_TYPE_IS:
+        return "data.exact"
+    if text in _DICT_TYPE_ISNOT:
+        return "(!data.exact)"
+    if text in ("isinstance(data, dict)", "isinstance(data, MutableMapping)", "isinstance(data, Mapping)", "isinstance(data, (dict, MutableMapping))",
+                "isinstance(data, collections.abc.MutableMapping)", "isinstance(data, collections.abc.Mapping)"):
+        return "true"
+    if isinstance(t, ast.Name) and t.id == "data":
+        return "(!data.items.isEmpty)"
+    if isinstance(t, ast.UnaryOp) and isinstance(t.op, ast.Not):
+        return "(!%s)" % _dict_test(t.operand)
+    if isinstance(t, ast.BoolOp):
+        return "(" + (" && " if isinstance(t.op, ast.And) else " || ").join(_dict_test(v) for v in t.values) + ")"
+    if isinstance(t, ast.Call) and isinstance(t.func, ast.Name) and t.func.id in ("all", "any") and len(t.args) == 1 and not t.keywords \
+            and isinstance(t.args[0], (ast.GeneratorExp, ast.ListComp)) and len(t.args[0].generators) == 1:
+        g = t.args[0].generators[0]
+        if not g.ifs and not g.is_async and isinstance(g.target, ast.Name) and ast.unparse(g.iter) in ("data", "data.keys()", "list(data)"):
+            return "(PyDict.%s (fun key => %s) data)" % ("allKeys" if t.func.id == "all" else "anyKeys", _key_test(t.args[0].elt, g.target.id))
+    raise KeyError("test on the dictionary of an unknown shape: " + text[:50])
+
+
+def row_glue(tree):
+    """`Row.__new__`: the `if <data is a dictionary>:` in front of `extract_dict_columns` -- (the guard as a Lean Bool over
+    `data : PyDict α`, the statements between the guard and the helper call as the body of a Lean function
+    `PyDict α → PyDict α`: what the helper is handed as a function of what the caller gave)."""
     fn = find_function(tree, "__new__", "Row")
     guards = [n for n in fn.body if isinstance(n, ast.If) and any(
         isinstance(c, ast.Call) and isinstance(c.func, ast.Name) and c.func.id == "extract_dict_columns" for c in ast.walk(n))]
     if len(guards) != 1 or guards[0].orelse:
         raise KeyError("if <data is a dictionary>: … extract_dict_columns(…)")
     g = guards[0]
-    test = ast.unparse(g.test)
-    if test == "isinstance(data, dict)":
-        sub = True
-    elif test in ("type(data) is dict", "type(data) == dict", "data.__class__ is dict"):
-        sub = False
-    else:
-        raise KeyError("guard of an unknown shape: " + test[:40])
-    calls = [c for c in ast.walk(g) if isinstance(c, ast.Call) and isinstance(c.func, ast.Name) and c.func.id == "extract_dict_columns"]
-    if len(calls) != 1 or [ast.unparse(a) for a in calls[0].args] != ["data", "cls._fields"] or calls[0].keywords:
-        raise KeyError("extract_dict_columns(data, cls._fields)")
-    norm = False
-    for st in g.body:
-        if any(c is calls[0] for c in ast.walk(st)):
+    others = [c for c in ast.walk(fn) if isinstance(c, ast.Call) and isinstance(c.func, ast.Name) and c.func.id == "extract_dict_columns"]
+    if len(others) != 1 or [ast.unparse(a) for a in others[0].args] != ["data", "cls._fields"] or others[0].keywords:
+        raise KeyError("extract_dict_columns(data, cls._fields), once")
+    for st in fn.body:
+        if st is g:
             break
-        if isinstance(st, ast.Assign) and ast.unparse(st) == "data = dict(data)":
-            norm = True
-        elif isinstance(st, ast.If) and not st.orelse and ast.unparse(st.test) in ("type(data) is not dict", "type(data) != dict", "not type(data) is dict") \
-                and len(st.body) == 1 and ast.unparse(st.body[0]) == "data = dict(data)":
-            norm = True
-        elif isinstance(st, ast.Expr) and isinstance(st.value, ast.Constant):
-            pass
+        if not (isinstance(st, ast.Expr) and isinstance(st.value, ast.Constant)):
+            raise KeyError("a statement in front of the dictionary test: " + ast.unparse(st)[:40])
+    guard = _dict_test(g.test)
+    lines = []
+    last = g.body[-1]
+    if not (isinstance(last, ast.Assign) and ast.unparse(last) == "data = extract_dict_columns(data, cls._fields)"):
+        raise KeyError("the branch does not end with data = extract_dict_columns(data, cls._fields)")
+    for st in g.body[:-1]:
+        if isinstance(st, ast.Expr) and isinstance(st.value, ast.Constant):
+            continue
+        if isinstance(st, ast.Assign) and [ast.unparse(t) for t in st.targets] == ["data"]:
+            lines.append("let data := %s" % _dict_expr(st.value))
+        elif isinstance(st, ast.If) and len(st.body) == 1 and isinstance(st.body[0], ast.Assign) and [ast.unparse(t) for t in st.body[0].targets] == ["data"] \
+                and (not st.orelse or (len(st.orelse) == 1 and isinstance(st.orelse[0], ast.Assign) and [ast.unparse(t) for t in st.orelse[0].targets] == ["data"])):
+            other = _dict_expr(st.orelse[0].value) if st.orelse else "data"
+            lines.append("let data := if %s then %s else %s" % (_dict_test(st.test), _dict_expr(st.body[0].value), other))
         else:
             raise KeyError("statement before the helper call: " + ast.unparse(st)[:40])
-    return [sub, norm]
+    return [guard, "".join("  %s\n" % l for l in lines) + "  data"]
+
+
+PINNED_APPEND_PREPARE = "  let data := if (true && (!data.exact)) then (PyDict.copy data) else data\n  data"
+
+
+def append_glue(tree):
+    """`DataFrame.append`: what the row factory is handed as a function of the dictionary the caller gave -- every statement
+    that rebinds `entry` before `self._row_factory(entry)` (the second layer of preparation in front of the helper)."""
+    import copy
+
+    fn = find_function(tree, "append", "DataFrame")
+    calls = [c for c in ast.walk(fn) if isinstance(c, ast.Call) and ast.unparse(c.func) == "self._row_factory"]
+    if len(calls) != 1 or [ast.unparse(a) for a in calls[0].args] != ["entry"] or calls[0].keywords:
+        raise KeyError("self._row_factory(entry), once")
+
+    class R(ast.NodeTransformer):
+        def visit_Name(self, n):
+            if n.id == "data":
+                raise KeyError("a local called data")
+            return ast.copy_location(ast.Name(id="data", ctx=n.ctx), n) if n.id == "entry" else n
+
+    lines = []
+    binds = _assigns_to(fn, "entry")
+    seen = []
+    for st in fn.body:
+        if any(c is calls[0] for c in ast.walk(st)):
+            break
+        inside = [b for b in binds if any(b is x for x in ast.walk(st))]
+        if not inside:
+            continue   # does not rebind the entry (materialising the rows, validating against the schema)
+        seen += inside
+        st = R().visit(copy.deepcopy(st))
+        if isinstance(st, ast.Assign) and [ast.unparse(t) for t in st.targets] == ["data"]:
+            lines.append("let data := %s" % _dict_expr(st.value))
+        elif isinstance(st, ast.If) and len(st.body) == 1 and isinstance(st.body[0], ast.Assign) and [ast.unparse(t) for t in st.body[0].targets] == ["data"] \
+                and not st.orelse:
+            lines.append("let data := if %s then %s else data" % (_dict_test(st.test), _dict_expr(st.body[0].value)))
+        else:
+            raise KeyError("statement that rebinds the entry: " + ast.unparse(st)[:40])
+    if len(seen) != len(binds):
+        raise KeyError("the entry is rebound after (or around) the row factory call")
+    return "".join("  %s\n" % l for l in lines) + "  data"
 
 
 def single_index(fn):
@@ -441,7 +574,8 @@ def generate(o):
     kl = o.item("site.collect.kernel_limit", lambda: kernel_limit(fn_collect()), "limit")
     si = o.item("site.collect.single_index", lambda: single_index(fn_collect()), 0)
     ic = o.item("site.collect.index_conversion_checked", lambda: index_conversion(fn_collect()), True)
-    rg = o.item("site.row.new_guard", lambda: row_new_guard(Src("orso/row.py").tree), [True, True])
+    rg = o.item("site.row.glue", lambda: row_glue(Src("orso/row.py").tree), [PINNED_ROW_GUARD, PINNED_ROW_PREPARE])
+    ag = o.item("site.append.glue", lambda: append_glue(df.tree), PINNED_APPEND_PREPARE)
     ml = o.item("site.display.measure_limit", lambda: display_measure_limit(disp.tree), "none")
     mr = o.item("site.display.measure_refs", lambda: display_measure_refs(disp.tree), PINNED_REFS)
     o.item("site.table", lambda: [[s["file"], s["function"], s["kernel"], s["args"]] for s in scan_call_sites(df.path[: -len("orso/dataframe.py")])], [])
@@ -462,10 +596,6 @@ def generate(o):
     t += "/-- DataFrame.collect: the resolved positions become the kernel's int32 buffer by a conversion that *rejects* a value\n"
     t += "outside int32 (`numpy.array(…, dtype=numpy.int32)`: OverflowError) -- `false`: by one that wraps it around (`.astype`) -/\n"
     t += "def indexConvChecked : Bool := %s\n" % ("true" if ic else "false")
-    t += "/-- Row.__new__: the test in front of `extract_dict_columns` admits subclasses of dict (`isinstance(data, dict)`) -- `false`:\n"
-    t += "exact dictionaries only (`type(data) is dict`); and: a subclass is copied into an exact dict before the call -/\n"
-    t += "def rowGuardAdmitsSubclass : Bool := %s\n" % ("true" if rg[0] else "false")
-    t += "def rowCopiesSubclass : Bool := %s\n" % ("true" if rg[1] else "false")
     t += "/-- ascii_table: the limit passed to `t.collect(i, …)` inside `calculate_data_width(…)`; `none` = not limited -/\n"
     t += "@[simp] def measureLimit (limit : Int) : Option Int := %s\n" % ml
     t += "/-- ascii_table: the column handed to `t.collect(…)` for each printed column, in order: `Sum.inl` = a position,\n"
@@ -473,3 +603,33 @@ def generate(o):
     t += "def measureRefs (names : List String) : List (Sum Int String) := %s\n" % mr
     t += "end Gen.CallSites\n"
     o.files["CallSitesExpr.lean"] = t
+
+    # Row.__new__: the glue in front of extract_dict_columns, statement by statement
+    from .. import core, pystmt
+
+    header = HEADER + "import OrsoVerif.Model.PyDict\n"
+    header += ("/-! `Row.__new__` (orso/row.py): the test in front of `extract_dict_columns` and the statements between that test and the\n"
+               "helper call, translated statement by statement (harness/extractors/c10_sites.py `row_glue`): what the helper is handed\n"
+               "as a function of the dictionary the caller gave. -/\n")
+    header += "set_option linter.unusedVariables false\nopen PyDictM\nnamespace Gen.DictGlue\nvariable {α : Type}\n\n"
+
+    def defs(guard, prepare):
+        d = "/-- Row.__new__: the test that sends `data` to the helper (`isinstance(data, dict)`: every dictionary) -/\n"
+        d += "def rowGuard (data : PyDict α) : Bool := %s\n" % guard
+        d += "/-- Row.__new__: the statements between that test and `extract_dict_columns(data, cls._fields)` -/\n"
+        d += "def rowPrepare (data : PyDict α) : PyDict α :=\n%s\n" % prepare
+        return d
+
+    def adefs(prepare):
+        d = "/-- DataFrame.append: the statements that rebind `entry` before `self._row_factory(entry)` (a dictionary entry) -/\n"
+        d += "def appendPrepare (data : PyDict α) : PyDict α :=\n%s\n" % prepare
+        return d
+
+    pinned = {"glue": defs(PINNED_ROW_GUARD, PINNED_ROW_PREPARE), "append": adefs(PINNED_APPEND_PREPARE)}
+    try:
+        text, bad = pystmt.compile_checked(header, [("glue", defs(rg[0], rg[1])), ("append", adefs(ag))], "\nend Gen.DictGlue\n", pinned, core.LEAN, "DictGlue")
+    except Exception as e:
+        text, bad = header + pinned["glue"] + "\n" + pinned["append"] + "\nend Gen.DictGlue\n", ["glue (%s)" % type(e).__name__]
+    for k in bad:
+        o.degraded.append("site.row.%s (the translation does not elaborate in Lean; pinned text used)" % k)
+    o.files["DictGlue.lean"] = text
